@@ -1,9 +1,12 @@
 // Package c17: decoding is a pure function of the value and the target type.
 //
 // (a) correspondence: the real encoding.DecoderGroup driven with table-defined decoders,
-//     against Uniflow.Group.decode on the same tables and decode sequences;
+//
+//	against Uniflow.Group.decode on the same tables and decode sequences;
+//
 // (b) property oracle on the real codec registry: every (value, type) pair decoded cold,
-//     after random warm-up histories, and from many goroutines at once.
+//
+//	after random warm-up histories, and from many goroutines at once.
 package c17
 
 import (
@@ -330,48 +333,64 @@ type withJSON struct {
 
 func pool() []pair {
 	vals := map[string]func() types.Value{
-		"str7":     func() types.Value { return types.NewString("7") },
-		"strB64":   func() types.Value { return types.NewString("aGVsbG8=") },
-		"strAbc":   func() types.Value { return types.NewString("abc") },
-		"str1.5":   func() types.Value { return types.NewString("1.5") },
-		"strTrue":  func() types.Value { return types.NewString("true") },
-		"strTime":  func() types.Value { return types.NewString("2024-11-16T12:00:00Z") },
-		"strDur":   func() types.Value { return types.NewString("1.5s") },
-		"strUUID":  func() types.Value { return types.NewString("6ba7b810-9dad-11d1-80b4-00c04fd430c8") },
-		"strEmpty": func() types.Value { return types.NewString("") },
-		"int64_7":  func() types.Value { return types.NewInt64(7) },
-		"int_0":    func() types.Value { return types.NewInt(0) },
-		"int8_-3":  func() types.Value { return types.NewInt8(-3) },
+		"str7":      func() types.Value { return types.NewString("7") },
+		"strB64":    func() types.Value { return types.NewString("aGVsbG8=") },
+		"strAbc":    func() types.Value { return types.NewString("abc") },
+		"str1.5":    func() types.Value { return types.NewString("1.5") },
+		"strTrue":   func() types.Value { return types.NewString("true") },
+		"strTime":   func() types.Value { return types.NewString("2024-11-16T12:00:00Z") },
+		"strDur":    func() types.Value { return types.NewString("1.5s") },
+		"strUUID":   func() types.Value { return types.NewString("6ba7b810-9dad-11d1-80b4-00c04fd430c8") },
+		"strEmpty":  func() types.Value { return types.NewString("") },
+		"int64_7":   func() types.Value { return types.NewInt64(7) },
+		"int_0":     func() types.Value { return types.NewInt(0) },
+		"int8_-3":   func() types.Value { return types.NewInt8(-3) },
 		"int32_big": func() types.Value { return types.NewInt32(1 << 30) },
-		"uint8":    func() types.Value { return types.NewUint8(200) },
+		"uint8":     func() types.Value { return types.NewUint8(200) },
 		"uint64max": func() types.Value { return types.NewUint64(^uint64(0)) },
-		"f64":      func() types.Value { return types.NewFloat64(1.5) },
-		"f32":      func() types.Value { return types.NewFloat32(-2.25) },
-		"true":     func() types.Value { return types.True },
-		"false":    func() types.Value { return types.False },
-		"bin":      func() types.Value { return types.NewBinary([]byte{1, 2, 3, 4}) },
-		"bin16":    func() types.Value { return types.NewBinary([]byte("0123456789abcdef")) },
-		"nil":      func() types.Value { return nil },
-		"err":      func() types.Value { return types.NewError(errors.New("boom")) },
-		"slInts":   func() types.Value { return types.NewSlice(types.NewInt(1), types.NewInt64(2), types.NewUint8(3)) },
-		"slStrs":   func() types.Value { return types.NewSlice(types.NewString("7"), types.NewString("abc")) },
-		"slMixed":  func() types.Value { return types.NewSlice(types.NewString("x"), types.NewInt(1), types.True) },
-		"slEmpty":  func() types.Value { return types.NewSlice() },
-		"mapAB":    func() types.Value { return types.NewMap(types.NewString("a"), types.NewInt(1), types.NewString("b"), types.NewString("x")) },
-		"mapBad":   func() types.Value { return types.NewMap(types.NewString("a"), types.NewString("zz"), types.NewString("b"), types.NewInt(3)) },
+		"f64":       func() types.Value { return types.NewFloat64(1.5) },
+		"f32":       func() types.Value { return types.NewFloat32(-2.25) },
+		"true":      func() types.Value { return types.True },
+		"false":     func() types.Value { return types.False },
+		"bin":       func() types.Value { return types.NewBinary([]byte{1, 2, 3, 4}) },
+		"bin16":     func() types.Value { return types.NewBinary([]byte("0123456789abcdef")) },
+		"nil":       func() types.Value { return nil },
+		"err":       func() types.Value { return types.NewError(errors.New("boom")) },
+		"slInts":    func() types.Value { return types.NewSlice(types.NewInt(1), types.NewInt64(2), types.NewUint8(3)) },
+		"slStrs":    func() types.Value { return types.NewSlice(types.NewString("7"), types.NewString("abc")) },
+		"slMixed":   func() types.Value { return types.NewSlice(types.NewString("x"), types.NewInt(1), types.True) },
+		"slEmpty":   func() types.Value { return types.NewSlice() },
+		"mapAB": func() types.Value {
+			return types.NewMap(types.NewString("a"), types.NewInt(1), types.NewString("b"), types.NewString("x"))
+		},
+		"mapBad": func() types.Value {
+			return types.NewMap(types.NewString("a"), types.NewString("zz"), types.NewString("b"), types.NewInt(3))
+		},
 		"mapInts":  func() types.Value { return types.NewMap(types.NewString("k"), types.NewInt(5)) },
 		"mapEmpty": func() types.Value { return types.NewMap() },
 		// values that make a decode FAIL after it has written part of a composite target, and shorter /
 		// sparser values of the same shape that would show leftovers (seeded c17e: scratch cells pooled
 		// per decoder were put back dirty on the error returns)
-		"mapSlBad":  func() types.Value { return types.NewMap(types.NewString("k"), types.NewSlice(types.NewInt(1), types.NewInt(2), types.NewString("x"))) },
-		"mapSl1":    func() types.Value { return types.NewMap(types.NewString("k"), types.NewSlice(types.NewInt(7))) },
-		"mapStBad":  func() types.Value { return types.NewMap(types.NewString("k"), types.NewMap(types.NewString("a"), types.NewInt(1), types.NewString("b"), types.NewSlice())) },
-		"mapStB":    func() types.Value { return types.NewMap(types.NewString("k"), types.NewMap(types.NewString("b"), types.NewString("y"))) },
-		"mapMapBad": func() types.Value { return types.NewMap(types.NewString("k"), types.NewMap(types.NewString("p"), types.NewInt(1), types.NewString("q"), types.NewString("zz"))) },
-		"mapMapR":   func() types.Value { return types.NewMap(types.NewString("k"), types.NewMap(types.NewString("r"), types.NewInt(3))) },
-		"slSlBad":   func() types.Value { return types.NewSlice(types.NewSlice(types.NewInt(1), types.NewInt(2), types.NewString("x"))) },
-		"slSl1":     func() types.Value { return types.NewSlice(types.NewSlice(types.NewInt(7))) },
+		"mapSlBad": func() types.Value {
+			return types.NewMap(types.NewString("k"), types.NewSlice(types.NewInt(1), types.NewInt(2), types.NewString("x")))
+		},
+		"mapSl1": func() types.Value { return types.NewMap(types.NewString("k"), types.NewSlice(types.NewInt(7))) },
+		"mapStBad": func() types.Value {
+			return types.NewMap(types.NewString("k"), types.NewMap(types.NewString("a"), types.NewInt(1), types.NewString("b"), types.NewSlice()))
+		},
+		"mapStB": func() types.Value {
+			return types.NewMap(types.NewString("k"), types.NewMap(types.NewString("b"), types.NewString("y")))
+		},
+		"mapMapBad": func() types.Value {
+			return types.NewMap(types.NewString("k"), types.NewMap(types.NewString("p"), types.NewInt(1), types.NewString("q"), types.NewString("zz")))
+		},
+		"mapMapR": func() types.Value {
+			return types.NewMap(types.NewString("k"), types.NewMap(types.NewString("r"), types.NewInt(3)))
+		},
+		"slSlBad": func() types.Value {
+			return types.NewSlice(types.NewSlice(types.NewInt(1), types.NewInt(2), types.NewString("x")))
+		},
+		"slSl1": func() types.Value { return types.NewSlice(types.NewSlice(types.NewInt(7))) },
 	}
 	typs := map[string]reflect.Type{
 		"any": reflect.TypeOf((*any)(nil)), "string": reflect.TypeOf((*string)(nil)), "bytes": reflect.TypeOf((*[]byte)(nil)),
@@ -381,14 +400,19 @@ func pool() []pair {
 		"f32": reflect.TypeOf((*float32)(nil)), "f64": reflect.TypeOf((*float64)(nil)), "bool": reflect.TypeOf((*bool)(nil)),
 		"time": reflect.TypeOf((*time.Time)(nil)), "dur": reflect.TypeOf((*time.Duration)(nil)), "uuid": reflect.TypeOf((*uuid.UUID)(nil)),
 		"[]any": reflect.TypeOf((*[]any)(nil)), "[]int": reflect.TypeOf((*[]int)(nil)), "[]string": reflect.TypeOf((*[]string)(nil)), "[][]byte": reflect.TypeOf((*[][]byte)(nil)),
-		"[2]int": reflect.TypeOf((*[2]int)(nil)),
+		"[2]int":         reflect.TypeOf((*[2]int)(nil)),
 		"map[string]any": reflect.TypeOf((*map[string]any)(nil)), "map[string]int": reflect.TypeOf((*map[string]int)(nil)), "map[string][]byte": reflect.TypeOf((*map[string][]byte)(nil)),
 		"struct": reflect.TypeOf((*ab)(nil)), "*int": reflect.TypeOf((**int)(nil)), "*[]byte": reflect.TypeOf((**[]byte)(nil)), "error": reflect.TypeOf((*error)(nil)),
 		"value": reflect.TypeOf((*types.Value)(nil)),
+		// the other targets of the Value family: the source is stored as it is when it is assignable and the
+		// decode is DECLINED otherwise – a declined decode into one of them says nothing about the next one
+		// (seeded change c17j: the shortcut decoder remembered declined SOURCE types for all its targets)
+		"vMap": reflect.TypeOf((*types.Map)(nil)), "vString": reflect.TypeOf((*types.String)(nil)), "vSlice": reflect.TypeOf((*types.Slice)(nil)),
+		"vBinary": reflect.TypeOf((*types.Binary)(nil)), "vInt": reflect.TypeOf((*types.Int)(nil)), "vError": reflect.TypeOf((*types.Error)(nil)),
 		"map[string][]int": reflect.TypeOf((*map[string][]int)(nil)), "map[string]struct": reflect.TypeOf((*map[string]ab)(nil)),
 		"map[string]map[string]int": reflect.TypeOf((*map[string]map[string]int)(nil)), "map[string]*struct": reflect.TypeOf((*map[string]*ab)(nil)),
 		"[][]int": reflect.TypeOf((*[][]int)(nil)),
-		"jsonT": reflect.TypeOf((*jsonT)(nil)), "textT": reflect.TypeOf((*textT)(nil)), "binT": reflect.TypeOf((*binT)(nil)),
+		"jsonT":   reflect.TypeOf((*jsonT)(nil)), "textT": reflect.TypeOf((*textT)(nil)), "binT": reflect.TypeOf((*binT)(nil)),
 		"[]jsonT": reflect.TypeOf((*[]jsonT)(nil)), "map[string]jsonT": reflect.TypeOf((*map[string]jsonT)(nil)),
 	}
 	var out []pair
